@@ -9,7 +9,7 @@ globalThis.require = require;   // prelude.js does `$global.require = require` u
 const P = require(path.join(__dirname, 'prelude_loader.js')).load(process.argv[2]);
 const $subslice = P.get('$subslice'), $substring = P.get('$substring'), $makeSlice = P.get('$makeSlice'),
   $Chan = P.get('$Chan'), $sliceToGoArray = P.get('$sliceToGoArray'), $close = P.get('$close'), $send = P.get('$send'),
-  $chanNil = P.get('$chanNil');
+  $chanNil = P.get('$chanNil'), $assertType = P.get('$assertType');
 
 function FakeSlice(array) { this.$array = array; this.$offset = 0; this.$length = 0; this.$capacity = 0; }
 FakeSlice.nil = new FakeSlice([]);
@@ -19,6 +19,56 @@ FakeTyp.nativeArray = function (n) { this.length = n; };
 FakeTyp.elem = { zero() { return 0; } };
 const U = undefined;
 const opt = (p, v) => (p ? v : U);
+
+const fnCache = new Map();
+function fn(code) { if (!fnCache.has(code)) fnCache.set(code, P.eval(code)); return fnCache.get(code); }
+function mkmap(isnil, l) {
+  if (isnil) return P.get('$mapType')(P.get('$Int'), P.get('$Int')).zero();      // the real nil map value
+  const m = new Map();
+  for (let i = 0; i + 1 < l.length; i += 2) m.set(P.get('$Int').keyFor(l[i]), { k: l[i], v: l[i + 1] });
+  return m;
+}
+const structCache = new Map();
+function mkstruct(n, withMethod) {
+  const key = n + (withMethod ? 'm' : '');
+  if (structCache.has(key)) return structCache.get(key);
+  const props = [];
+  for (let i = 0; i < n; i++) props.push('f' + i);
+  // the constructor shape the compiler emits for a struct type
+  const ctor = function () {
+    this.$val = this;
+    if (arguments.length === 0) { for (const p of props) this[p] = 0; return; }
+    for (let i = 0; i < props.length; i++) this[props[i]] = arguments[i];
+  };
+  const S = P.get('$newType')(0, P.get('$kindStruct'), 'main.S' + key, true, 'main', true, ctor);
+  if (withMethod) S.ptr.methods = [{ prop: 'M', name: 'M', pkg: '', typ: P.get('$funcType')([], [], false) }];
+  S.init('main', props.map(p => ({ prop: p, name: p, embedded: false, exported: false, typ: P.get('$Int'), tag: '' })));
+  structCache.set(key, S);
+  return S;
+}
+let PAL = null;
+function assertPalette() {
+  if (PAL) return PAL;
+  // runtime.TypeAssertionError is defined by the runtime package; stand-in whose Error() text marks the panic
+  P.eval('$packages["runtime"] = { TypeAssertionError: { ptr: function(a, b, c, d) { this.Error = function() { return "TAE:" + d; }; } }, _type: { ptr: function(s) { this.str = s; } } }; $packages["runtime"]._type.ptr.nil = null;');
+  const $Int = P.get('$Int'), $String = P.get('$String'), $Float64 = P.get('$Float64');
+  const S1 = mkstruct(1, false), S2 = mkstruct(2, true);
+  const ft = P.get('$funcType')([], [], false);
+  const mkI = (name, ms) => { const I = P.get('$newType')(8, P.get('$kindInterface'), 'main.' + name, true, 'main', true, null); I.init(ms.map(m => ({ prop: m, name: m, pkg: '', typ: ft }))); return I; };
+  PAL = {
+    // dynamic types: index = type identity in the model; methods: S2's pointer type has method M (model id 100)
+    values: [
+      { typ: $Int, make: pl => new $Int(pl), read: v => v },
+      { typ: $String, make: pl => new $String(String(pl)), read: v => (v === '' ? 0 : parseInt(v, 10)) },
+      { typ: $Float64, make: pl => new $Float64(pl), read: v => v },
+      { typ: S1.ptr, make: pl => new S1.ptr(pl), read: v => (v === S1.ptr.nil ? 0 : v.f0) },
+      { typ: S2.ptr, make: pl => new S2.ptr(pl, 0), read: v => (v === S2.ptr.nil ? 0 : v.f0) },
+    ],
+    // interface targets: {} / {M} / {M, N}
+    ifaces: [P.get('$emptyInterface'), mkI('IM', ['M']), mkI('IMN', ['M', 'N'])],
+  };
+  return PAL;
+}
 
 function run(c) {
   const a = c.a;
@@ -55,6 +105,55 @@ function run(c) {
     }
     case 'close_closed': { const ch = new $Chan(null, 0); $close(ch); $close(ch); return [0]; }
     case 'send_closed': { const ch = new $Chan(null, 1); $close(ch); $send(ch, 1); return [0]; }
+  }
+  switch (c.op) {
+    // ---- phase 4: guards on the shape of a value.  c.code: the JavaScript the compiler emits for the
+    // operation, instantiated by the check from the format strings in statements.go / expressions.go ----
+    case 'map_store': { // isnil k v k1 v1 ...
+      const m = mkmap(a[0], a.slice(3));
+      const r = fn(c.code)(m, a[1], a[2]);
+      const out = [];
+      for (const e of r.values()) out.push(e.k, e.v);
+      return out;
+    }
+    case 'map_read': { // isnil k k1 v1 ... ; code returns [plain value, [value, ok]]
+      const m = mkmap(a[0], a.slice(2));
+      const r = fn(c.code)(m, a[1]);
+      if (r[0] !== r[1][0]) throw new Error('plain and comma-ok map reads disagree');
+      return [r[1][0], r[1][1] ? 1 : 0];
+    }
+    case 'ptr_get': { // isnil n i f0 ...
+      const S = mkstruct(a[1]);
+      const p = a[0] ? S.ptr.nil : new S.ptr(...a.slice(3));
+      const v = p['f' + a[2]];
+      return v === undefined ? [] : [v];
+    }
+    case 'ptr_set': { // isnil n i v f0 ...
+      const S = mkstruct(a[1]);
+      const p = a[0] ? S.ptr.nil : new S.ptr(...a.slice(4));
+      if (!a[0] && a[2] >= a[1]) return a.slice(4);   // no such field: not expressible in Go
+      p['f' + a[2]] = a[3];
+      if (a[0]) return [-1];                          // a store through the nil pointer went through: must not be masked by the reads below
+      const out = [];
+      for (let i = 0; i < a[1]; i++) out.push(p['f' + i]);
+      return out;
+    }
+    case 'assert': { // tuple vnil vtid pl tkind ttid nvm vms... ims...   (ids index the palettes below)
+      const pal = assertPalette();
+      const value = a[1] ? P.get('$ifaceNil') : pal.values[a[2]].make(a[3]);
+      const type = a[4] ? pal.ifaces[a[5]] : pal.values[a[5]].typ;
+      let r;
+      try { r = a[0] ? $assertType(value, type, true) : $assertType(value, type); }
+      catch (e) {
+        if (e && typeof e.message === 'string' && e.message.startsWith('TAE:')) { const t = new Error('tae'); t.$runtimeError = e.message; throw t; }
+        throw e;
+      }
+      const dec = v => (a[4] ? (v === value ? a[3] : -1) : pal.values[a[5]].read(v));
+      if (!a[0]) return [dec(r)];
+      if (r[1]) return [dec(r[0]), 1];
+      return [r[0] === type.zero() ? 0 : -1, 0];
+    }
+    case 'map_zero': { const t = P.get('$mapType')(P.get('$Int'), P.get('$Int')); return [t.zero() === false ? 1 : 0]; }
   }
   throw new Error('bad op ' + c.op);
 }
